@@ -213,7 +213,7 @@ def run_instance(inst):
             res["counters"][f"q_{regime}_{r.status}"] = res["counters"].get(f"q_{regime}_{r.status}", 0) + 1
             if r.status == "unsat":
                 continue
-            if r.status == "sat" and r.model:
+            if r.has_witness:
                 fi, fr = float_eval(name, expr, r.model)
                 if (not math.isfinite(fi)) or abs(fi - fr) > 1e-6 * (1 + abs(fr)):
                     viol("kinetics", f"{expr} differs from the published expression at v={r.model.get('v')}: implementation {fi:.9g}, reference {fr:.9g}",
@@ -313,7 +313,41 @@ def run_synapse(inst, res):
     else:
         res["counters"]["expr_structural"] = 1
     out = new[pr + "s"].item()
-    for margin in (True, False):
+    # decomposition: (i) the argument of the dt-dependent exp, (ii) the rest with that exp as an atom
+    dec = mech.decompose_update(out, ref_new)
+    if dec is not None:
+        (arg_pairs, (oa, rb)) = dec
+        for label, a_, b_ in [("exp_argument", arg_pairs[0][0], arg_pairs[0][1]), ("rational_part", oa, rb)]:
+            for margin in (True, False):
+                q = smt.Query(f"C04/Iono/{label}{'~margin' if margin else ''}")
+                q.bounds("v", V_LO, V_HI); q.bounds("vpost", V_LO, V_HI); q.bounds("dt", 0.0, 10.0, lo_strict=True); q.bounds(f"s_{pr}s", 0.0, 1.0)
+                q.declare("EXPDT"); q.add("(and (> EXPDT 0.0) (<= EXPDT 1.0))")
+                mech.apply_ranges(q, pk)
+                d = sym.sub(a_, b_)
+                m_ = sym.mul(C("1/1000"), sym.add(C(1), abs(b_)))
+                q.add(sym.bor(sym.lt(m_, d), sym.lt(d, sym.neg(m_))) if margin else sym.ne(a_, b_))
+                r = q.check(timeout=timeout)
+                res["counters"][f"q_{label}{'_margin' if margin else ''}_{r.status}"] = 1
+                if r.has_witness:
+                    mv = r.model
+                    Pf = {k: jnp.asarray(float(mv.get(f"p_{k}", syn.synapse_params[k]))) for k in pk}
+                    Sf = {k: jnp.asarray(float(mv.get(f"s_{k}", 0.2))) for k in sk}
+                    dtv, vv = float(mv.get("dt", 0.025)), float(mv.get("v", 0.0))
+                    worst = None
+                    for dtt in (dtv, 0.025, 0.001):       # the deviation of the time constant shows best at small dt
+                        got = float(syn.update_states(Sf, dtt, jnp.asarray(vv), jnp.asarray(float(mv.get("vpost", 0.0))), Pf)[pr + "s"])
+                        si = 1.0 / (1.0 + math.exp((-35.0 - vv) / 10.0))
+                        ta = (1.0 - si) / float(Pf[pr + "k_minus"])
+                        want = si + (float(Sf[pr + "s"]) - si) * math.exp(-dtt / ta) if ta > 0 else si
+                        if abs(got - want) > 1e-6 * (1 + abs(want)):
+                            worst = (dtt, got, want); break
+                    if worst:
+                        viol("kinetics", f"state update differs from the Abbott & Marder first-order kinetics ({label}) at v_pre={vv}, dt={worst[0]}: implementation {worst[1]:.9g}, reference {worst[2]:.9g}", {"expr": "update"}, {"model": {k: x for k, x in mv.items() if k[0] in "vpsd"}})
+                        break
+                    res["inconclusive"].append({"instance": inst, "query": label, "reason": "model not reproduced"})
+                elif r.status not in ("unsat",):
+                    res["inconclusive"].append({"instance": inst, "query": label, "reason": r.status})
+    for margin in (() if dec is not None else (True, False)):
         q = smt.Query(f"C04/Iono/update{'~margin' if margin else ''}")
         q.bounds("v", V_LO, V_HI); q.bounds("vpost", V_LO, V_HI); q.bounds("dt", 0.0, 10.0, lo_strict=True); q.bounds(f"s_{pr}s", 0.0, 1.0)
         mech.apply_ranges(q, pk)
@@ -324,7 +358,7 @@ def run_synapse(inst, res):
         res["counters"][f"q_update{'_margin' if margin else ''}_{r.status}"] = 1
         if r.status == "unsat":
             continue
-        if r.status == "sat" and r.model:
+        if r.has_witness:
             mv = r.model
             Pf = {k: jnp.asarray(float(mv.get(f"p_{k}", syn.synapse_params[k]))) for k in pk}
             Sf = {k: jnp.asarray(float(mv.get(f"s_{k}", 0.2))) for k in sk}
